@@ -80,6 +80,29 @@ Theorem C09_fragment_train_completes : forall fuel st f len sent,
 Proof. exact c09_fragment_train_completes. Qed.
 Print Assumptions C09_fragment_train_completes.
 
+(* Order on the wire as a peer behind an order-preserving link sees it.  [wire_scan open out] walks
+   over the transmitted frames and fails (None) iff a whole socket datagram appears while a
+   fragment train is unfinished; [wire_coherent] ties it to the fragmenter.  While a train is
+   unfinished the emit closure of socket_egress sends NOTHING of any socket and the datagram
+   stays queued; it never answers Ok then.  So all fragments of a datagram precede every frame
+   of the datagram queued behind it, and completed datagrams of a socket appear in queue order. *)
+Theorem C09_fragments_before_next_datagram : forall ev p st na res st' na' res' c o0,
+  if_respond ev p (st, na, res) = Ok ((st', na', res'), c) ->
+  wire_coherent o0 st -> 0 < if_max_frag st -> if_max_frag st + wipv4_HEADER_LEN <= if_mtu st ->
+  (if_frag_finished st = false -> c = EMIT_BUSY /\ st' = st) /\
+  (c = EMIT_OK -> if_frag_finished st = true) /\
+  wire_coherent o0 st' /\
+  exists o', wire_scan o0 (if_out st') = Some o'.
+Proof. exact c09_fragments_before_next_datagram. Qed.
+Print Assumptions C09_fragments_before_next_datagram.
+
+(* ... and the fragmenter's own egress step keeps that order (next fragment, or last fragment
+   followed by the report of the completed datagram). *)
+Theorem C09_ipv4_egress_keeps_wire_order : forall st o0,
+  wire_coherent o0 st -> 0 < if_max_frag st -> wire_coherent o0 (if_ipv4_egress st).
+Proof. exact ipv4_egress_coherent. Qed.
+Print Assumptions C09_ipv4_egress_keeps_wire_order.
+
 (* Every arrival stored by process is handed to the application exactly once, whole, in order
    -- or consumed by a recv_slice that reported Truncated; stored = consumed ++ still pending. *)
 Theorem C09_rx_exactly_once_whole_or_not_at_all : forall ev s ops s' rs,
